@@ -385,12 +385,13 @@ def generate(source, recursive, params, route, cache, workdir):
                 argv += ["-c", cfgfile]
             elif route == "cli_mixed":
                 keys = sorted(k for k in params if k not in ("adv", "create"))
-                in_file = {k: params[k] for k in keys[::2]}
+                file_keys, cli_keys = (keys[1::2], keys[::2]) if ENV.get("mixed_parity") else (keys[::2], keys[1::2])
+                in_file = {k: params[k] for k in file_keys}
                 if params.get("adv"):
                     in_file["adv"] = params["adv"]
                 if params.get("create"):
                     in_file["create"] = True
-                on_cli = {k: params[k] for k in keys[1::2]}
+                on_cli = {k: params[k] for k in cli_keys}
                 write_config(cfgfile, in_file)
                 argv += ["-c", cfgfile] + flags_for(on_cli)
             else:
